@@ -58,7 +58,7 @@ from mc.stats import Stats
 ARITH = ("arith.addi", "arith.muli", "arith.subi")
 NAMES = ARITH + ("test.op",)
 ANY = ("any",)
-TIMEOUT_S = 10.0  # per apply() call; only corpus patterns can fail to terminate
+TIMEOUT_S = 6.0  # per apply() call; only corpus patterns can fail to terminate
 
 
 # =====================================================================================================================
@@ -936,11 +936,13 @@ def check_pairs(st: Stats, comp: Compiled, cls: tuple, funcs: list, wit_of: Any)
                     _one(st, comp, cls, f, ra, fas[i], rb, fbs[i], wit_of(b0 + i))
                 continue
         # a path raised / timed out / removed a function: one payload at a time
-        st.bump("batches_rerun_individually")
+        if len(batch) > 1:
+            st.bump("batches_rerun_individually")
         for i, f in enumerate(batch):
-            ra, ma = run_A(comp, [f])
-            rb, mb = run_B(comp, [f])
-            st.transitions += 2
+            if len(batch) > 1:
+                ra, ma = run_A(comp, [f])
+                rb, mb = run_B(comp, [f])
+                st.transitions += 2
             fa = (payload_ops(ma) or [None])[0] if ra[0] == "ok" else None
             fb = (payload_ops(mb) or [None])[0] if rb[0] == "ok" else None
             if ra[0] == "ok" and rb[0] == "ok" and (fa is None or fb is None):
@@ -1051,6 +1053,10 @@ def _corpus_shard(arg: tuple) -> Stats:
 
 
 # =====================================================================================================================
+def _shard(task: tuple) -> Stats:
+    return _corpus_shard(task[1:]) if task[0] == "corpus" else _gen_shard(task[1:])
+
+
 def _minimise_signatures(stats: list[Stats]) -> None:
     """A defect shows up under every pattern class that contains the triggering feature.  Re-key every violation to
     the smallest violating class (feature subset, same failure kind) so that one defect gives one narrow signature;
@@ -1097,11 +1103,11 @@ def run(ctx: Any) -> None:
     cps = corpus_patterns(pre)
     per = 4
     tasks = [(quick, lo, min(lo + per, len(pats)), ctx.seed) for lo in range(0, len(pats), per)]
-    # results are merged in task order (not completion order): witnesses and samples do not depend on scheduling
-    gen = sorted(pmap(_gen_shard, tasks), key=lambda r: r[0][1])
-    ctasks = [(i, cps[i:i + 2], not quick, ctx.seed) for i in range(0, len(cps), 2)]
-    cor = sorted(pmap(_corpus_shard, ctasks), key=lambda r: r[0][0])
-    stats = [pre] + [st for _, st in gen] + [st for _, st in cor]
+    # corpus shards first (a non-terminating path costs TIMEOUT_S per call); results are merged in task order, not
+    # completion order, so witnesses and samples do not depend on scheduling
+    ctasks = [("corpus", i, cps[i:i + 2], not quick, ctx.seed) for i in range(0, len(cps), 2)]
+    res = sorted(pmap(_shard, ctasks + [("gen",) + t for t in tasks]), key=lambda r: (r[0][0] != "gen", r[0][1] if r[0][0] == "corpus" else r[0][2]))
+    stats = [pre] + [st for _, st in res]
     _minimise_signatures(stats)
     for st in stats:
         ctx.merge(st)
